@@ -57,6 +57,31 @@ fn in_window(events: &[Event]) -> bool {
     dbw > 0
 }
 
+/// kinds and transaction ids of the records the engine's own reader finds in the image's log
+fn log_shape(img_dir: &Path) -> String {
+    let lp = img_dir.join("axmos.log");
+    if !lp.exists() {
+        return "nolog".into();
+    }
+    let copy = img_dir.join("copy.log");
+    std::fs::copy(&lp, &copy).unwrap();
+    let out = match axmosdb::verif::wal::Log::open(&copy) {
+        Ok(mut l) => {
+            let recs = l.read_all(4).unwrap_or_default();
+            let s = recs
+                .iter()
+                .map(|r| format!("{}{}", match r.kind { 0 => "B", 1 => "C", 2 => "A", 3 => "E", _ => "O" }, r.tid))
+                .collect::<Vec<_>>()
+                .join(".");
+            l.crash();
+            s
+        }
+        Err(_) => "unreadable".into(),
+    };
+    let _ = std::fs::remove_file(&copy);
+    out
+}
+
 fn materialise(img: &Image, dir: &Path) {
     let _ = std::fs::remove_dir_all(dir);
     std::fs::create_dir_all(dir).unwrap();
@@ -108,7 +133,10 @@ fn probe(db: &Database) -> Option<String> {
     for (sql, want) in steps {
         let got = match catch_unwind(AssertUnwindSafe(|| db.execute(sql))) {
             Ok(Ok(r)) => show_result(&r, false),
-            Ok(Err(e)) => classify_err(&e.to_string()),
+            Ok(Err(e)) => {
+                if std::env::var("AXV_VERBOSE").is_ok() { eprintln!("ERR probe {}: {}", sql, e); }
+                classify_err(&e.to_string())
+            }
             Err(_) => "err:panic".into(),
         };
         if got != want {
@@ -146,7 +174,22 @@ pub fn run_line(line: &str) -> String {
     let tables: Vec<&str> = head.get(2).copied().unwrap_or("").split(',').filter(|s| !s.is_empty()).collect();
     let points_s = head.get(3).copied().unwrap_or("all");
     let nested_s = head.get(4).copied().unwrap_or("0");
+    // optional: P<hex of "table=INSERT ...;;table=INSERT ...">: one insert of a fresh row per table, run after every
+    // reopen; it must report one row and the table must have one row more afterwards
+    let post: Vec<(String, String)> = head
+        .get(5)
+        .and_then(|t| t.strip_prefix('P'))
+        .map(|h| {
+            crate::util::string_of_hex(h)
+                .split(";;")
+                .filter_map(|x| x.split_once('=').map(|(a, b)| (a.to_string(), b.to_string())))
+                .collect()
+        })
+        .unwrap_or_default();
     let verbose = std::env::var("AXV_VERBOSE").is_ok();
+    // optional 7th token `L`: every crash record also carries the records of the log found in the image
+    // (`B<tid>` `C` `A` `E`, `O` for any data or catalog operation), joined by `.`, before a `#`
+    let with_log = head.get(6).copied() == Some("L");
 
     let dir = crate::wal::scratch_dir("crash");
     let live = dir.join("live");
@@ -271,6 +314,7 @@ pub fn run_line(line: &str) -> String {
                 let _ = std::fs::remove_file(&copy);
             }
         }
+        let shape = if with_log { log_shape(&img_dir) } else { String::new() };
         if nested > 0 { iotap::start(); }
         let opened = open_db(&ipath, reopen_cfg);
         let ev2 = if nested > 0 { iotap::stop() } else { Vec::new() };
@@ -280,12 +324,29 @@ pub fn run_line(line: &str) -> String {
                 let d = dump(&db1, &tables);
                 let mut flags: Vec<String> = Vec::new();
                 if let Some(w) = probe(&db1) { flags.push(format!("probe({})", w)); }
+                let mut d_expect = d.clone();
+                for (t, sql) in &post {
+                    let before = catch_unwind(AssertUnwindSafe(|| db1.execute(&format!("SELECT * FROM {}", t))));
+                    let n0 = match before { Ok(Ok(axmosdb::runtime::QueryResult::Rows(r))) => r.iterrows().count(), _ => continue };
+                    let got = match catch_unwind(AssertUnwindSafe(|| db1.execute(sql))) {
+                        Ok(Ok(r)) => show_result(&r, false),
+                        Ok(Err(e)) => { if verbose { eprintln!("ERR post {}: {}", sql, e); } classify_err(&e.to_string()) }
+                        Err(_) => "err:panic".into(),
+                    };
+                    let after = catch_unwind(AssertUnwindSafe(|| db1.execute(&format!("SELECT * FROM {}", t))));
+                    let n1 = match after { Ok(Ok(axmosdb::runtime::QueryResult::Rows(r))) => r.iterrows().count() as i64, _ => -1 };
+                    if got != "count:1" || n1 != n0 as i64 + 1 {
+                        flags.push(format!("insert({}=>{},{}->{})", t, got, n0, n1));
+                    }
+                }
+                if !post.is_empty() { d_expect = dump(&db1, &tables); }
+                let d = d.clone();
                 drop(db1); // clean close
                 match open_db(&ipath, reopen_cfg) {
                     Err(e) => flags.push(format!("reopen({})", e)),
                     Ok(db2) => {
                         let d2 = dump(&db2, &tables);
-                        if d2 != d { flags.push(format!("reopen({})", d2)); }
+                        if d2 != d_expect { flags.push(format!("reopen({})", d2)); }
                     }
                 }
                 // crash points inside the recovery that just ran
@@ -317,6 +378,7 @@ pub fn run_line(line: &str) -> String {
                 (d, if flags.is_empty() { "ok".into() } else { flags.join("+") })
             }
         };
+        let d = if with_log { format!("{}#{}", shape, d) } else { d };
         let body = format!("{}@{}@{}@{}@{}", j, if f { 1 } else { 0 }, if w { 1 } else { 0 }, d, flags);
         match recs.last_mut() {
             Some((_, k2, b)) if *b == body => *k2 = k,
